@@ -104,8 +104,12 @@ def observe(ctx, models, types, tag):
                 pools.get(T)
                 T in pools, list(pools), len(pools)
                 ctx.count('direct_reads_of_the_pools_attribute')
-            got = sm[T]
-            got2 = sm.get_components(T)
+            if ctx.counters.get('listing_comparisons', 0) % 2:          # (the two spellings are asked in alternating order)
+                got = sm[T]
+                got2 = sm.get_components(T)
+            else:
+                got2 = sm.get_components(T)
+                got = sm[T]
             if ctx.counters.get('listing_comparisons', 0) % 7 == 0:
                 from vlib import reps
                 got3 = reps.deprecated_call(sm.getComponents, T)            # deprecated spelling: the same listing
@@ -217,6 +221,11 @@ def case_history(ctx, case):
     stopped = None
     reported = set()
     for step in range(nops):
+        if rng.random() < 0.5:
+            # the last thing anybody asked before the next change is one random question about one random type (what an answer leaves
+            # behind must not be what the next answer depends on)
+            m_, T_ = rng.choice(models), rng.choice(types)
+            rng.choice([lambda: m_.real.systems[T_], lambda: m_.real.systems.get_components(T_), lambda: T_ in m_.real.systems.component_pools])()
         if step in complete_at:
             complete_at[step].real.complete()        # agents keep joining and leaving a finished model (reporting, clean-up)
             ctx.count('models_completed_mid_history')
